@@ -87,7 +87,11 @@ func (m *Machine) bigBin(op string, a, b *smt.Term) *smt.Term {
 		switch op {
 		case "add":
 			if maxInt(ua, ub)+1 >= w {
-				m.unsupported("big.Int addition may exceed the %d-bit model width (operand bounds %d and %d bits)", w, ua, ub)
+				// no structural bound: the solver decides whether the sum can leave the model width on this path
+				wide := smt.BvAdd(smt.Sext(a, 1), smt.Sext(b, 1))
+				if !m.Branch(smt.Eq(wide, smt.Sext(smt.BvAdd(a, b), 1))) {
+					m.unsupported("big.Int addition exceeds the %d-bit model width", w)
+				}
 			}
 			return smt.BvAdd(a, b)
 		case "sub":
@@ -108,7 +112,14 @@ func (m *Machine) bigBin(op string, a, b *smt.Term) *smt.Term {
 				}
 			}
 			if ua+ub >= w {
-				m.unsupported("big.Int multiplication may exceed the %d-bit model width (operand bounds %d and %d bits)", w, ua, ub)
+				// sufficient: both factors fit in half the width (signed); decided by the solver on this path
+				h := w/2 - 1
+				fits := func(x *smt.Term) *smt.Term {
+					return smt.Eq(smt.Sext(smt.Extract(x, h, 0), w-h-1), x)
+				}
+				if !m.Branch(smt.And(fits(a), fits(b))) {
+					m.unsupported("big.Int multiplication may exceed the %d-bit model width", w)
+				}
 			}
 			return smt.BvMul(a, b)
 		case "and":
